@@ -52,3 +52,24 @@ def cm_differences(g):
         if d:
             out.append((key, d[0], d[1]))
     return out
+
+
+def run_sharded(runner, job_of_shard, items, timeout=3000):
+    """run corr/<runner> on NPROC shards of `items`; job_of_shard(shard index, items) -> JSON job; returns the concatenated outputs per shard"""
+    import threading
+    n = max(1, min(C.NPROC, len(items)))
+    outs = [None] * n
+
+    def work(i):
+        sh = items[i::n]
+        r = subprocess.run([C.PY, '-W', 'ignore', os.path.join(C.VERIF, 'corr', runner)], input=json.dumps(job_of_shard(i, sh)), capture_output=True, text=True,
+                           env=C.impl_env(), timeout=timeout)
+        if r.returncode != 0:
+            raise RuntimeError('%s failed: %s' % (runner, r.stderr[-1500:]))
+        outs[i] = (sh, json.loads(r.stdout))
+    ths = [threading.Thread(target=work, args=(i,)) for i in range(n)]
+    [t.start() for t in ths]
+    [t.join() for t in ths]
+    if any(o is None for o in outs):
+        raise RuntimeError('%s: a shard failed' % runner)
+    return outs
